@@ -245,3 +245,16 @@ impl Show for f80 {
         f64::from(*self).show(settings)
     }
 }
+
+/// Verification hooks: the exact 80-bit encoding (little endian: 64-bit significand, then sign and
+/// 15-bit exponent), so that results can be compared without rounding through f64.
+#[cfg(feature = "verif")]
+impl f80 {
+    pub fn verif_bytes(&self) -> [u8; 10] {
+        self.0
+    }
+
+    pub fn verif_from_bytes(bytes: [u8; 10]) -> f80 {
+        f80(bytes)
+    }
+}
